@@ -39,6 +39,16 @@ type descrCtx struct {
 	bad      map[string]bool
 	selReads []selRead // every selector seen: field name, own?
 	visited  map[string]bool
+	// writes `v.F = …` to a captured struct v inside `switch key { case "…": … }`: v.F → the case clauses
+	keyed      map[string]map[*ast.CaseClause]bool
+	keyedLHS   map[string]int // text "v.F" → number of such writes
+	outNotDflt bool           // an output-capable module function is called outside a `default:` clause
+	curStmt    ast.Node
+}
+
+type caseInfo struct {
+	sw *ast.SwitchStmt
+	cc *ast.CaseClause
 }
 
 type selRead struct {
@@ -55,6 +65,11 @@ type unitEnv struct {
 	defs   map[types.Object][]ast.Expr
 	elems  map[types.Object]ast.Expr // range variable → ranged expression
 	busy   map[types.Object]bool
+	// parameters that ARE the loop's key (the argument at the call site is the key variable)
+	keyParams map[types.Object]bool
+	// locals / parameters that are component i of an array-typed key (`prefix, name := k[0], k[1]`)
+	keyComp map[types.Object]int
+	inCase  map[ast.Node]caseInfo // statement / call → innermost `switch <ident>` case clause around it
 }
 
 func (c *descrCtx) fail(format string, a ...any) { c.bad[fmt.Sprintf(format, a...)] = true }
@@ -121,7 +136,7 @@ func (c *descrCtx) keyDetermining(env *unitEnv, idx ast.Expr) bool {
 	switch x := idx.(type) {
 	case *ast.Ident:
 		o := objOf(info, x)
-		return o != nil && o == c.keyObj
+		return o != nil && (o == c.keyObj || env.keyParams[o])
 	case *ast.CompositeLit:
 		for _, e := range x.Elts {
 			if id, ok := e.(*ast.Ident); ok {
@@ -134,6 +149,173 @@ func (c *descrCtx) keyDetermining(env *unitEnv, idx ast.Expr) bool {
 		return c.keyDetermining(env, x.X)
 	}
 	return false
+}
+
+// compOf: the expression is component i of the loop's array-typed key (k[i], or a variable / parameter
+// holding it); n = number of components of the key type.
+func (c *descrCtx) compOf(env *unitEnv, e ast.Expr) (i, n int, ok bool) {
+	info := env.u.pk.info
+	keyLen := func() int {
+		if c.keyObj == nil {
+			return 0
+		}
+		if a, ok := c.keyObj.Type().Underlying().(*types.Array); ok {
+			return int(a.Len())
+		}
+		return 0
+	}
+	switch x := stripParens(e).(type) {
+	case *ast.IndexExpr:
+		if id, ok := x.X.(*ast.Ident); ok && objOf(info, id) == c.keyObj && c.keyObj != nil {
+			if bl, ok := x.Index.(*ast.BasicLit); ok && bl.Kind == token.INT {
+				var v int
+				fmt.Sscanf(bl.Value, "%d", &v)
+				return v, keyLen(), keyLen() > 0
+			}
+		}
+	case *ast.Ident:
+		o := objOf(info, x)
+		if o == nil {
+			return 0, 0, false
+		}
+		if v, ok := env.keyComp[o]; ok {
+			return v, keyLen(), keyLen() > 0
+		}
+		if _, isVar := o.(*types.Var); isVar && c.inside(env, o) && !env.busy[o] {
+			ds := env.defs[o]
+			if len(ds) == 1 {
+				env.busy[o] = true
+				defer delete(env.busy, o)
+				return c.compOf(env, ds[0])
+			}
+		}
+	}
+	return 0, 0, false
+}
+
+// twoLevelOwn: e is `m[b]` where m is a local alias of `X[a]` (X a map of maps that is not own) and a, b
+// are the two components of a two-component key: the slot of the own key in the two-level map X.
+// Returns the text of X.
+func (c *descrCtx) twoLevelOwn(env *unitEnv, e ast.Expr) (string, bool) {
+	info := env.u.pk.info
+	ie, ok := stripParens(e).(*ast.IndexExpr)
+	if !ok {
+		return "", false
+	}
+	ib, nb, okb := c.compOf(env, ie.Index)
+	if !okb || nb != 2 {
+		return "", false
+	}
+	// the inner map: X[a] directly, or a local defined (only) from X[a] and make(…)
+	var outer *ast.IndexExpr
+	switch x := stripParens(ie.X).(type) {
+	case *ast.IndexExpr:
+		outer = x
+	case *ast.Ident:
+		o := objOf(info, x)
+		if o == nil || !c.inside(env, o) {
+			return "", false
+		}
+		for _, d := range env.defs[o] {
+			switch dx := stripParens(d).(type) {
+			case *ast.IndexExpr:
+				if outer != nil && c.text(outer) != c.text(dx) {
+					return "", false
+				}
+				outer = dx
+			case *ast.CallExpr:
+				if id, ok := dx.Fun.(*ast.Ident); !ok || id.Name != "make" {
+					return "", false
+				}
+			default:
+				return "", false
+			}
+		}
+	}
+	if outer == nil {
+		return "", false
+	}
+	ia, na, oka := c.compOf(env, outer.Index)
+	if !oka || na != 2 || ia == ib {
+		return "", false
+	}
+	return c.text(outer.X), true
+}
+
+// returnsFresh: every result the function returns is nil, the address of a composite literal, a local
+// holding such an address, or the result of a function with the same property.
+func (c *descrCtx) returnsFresh(u *unit, busy map[string]bool) bool {
+	if busy[u.key] {
+		return true
+	}
+	busy[u.key] = true
+	info := u.pk.info
+	defs := map[types.Object][]ast.Expr{}
+	ast.Inspect(u.body, func(n ast.Node) bool {
+		if as, ok := n.(*ast.AssignStmt); ok && len(as.Lhs) == len(as.Rhs) {
+			for i, l := range as.Lhs {
+				if id, ok := l.(*ast.Ident); ok {
+					if o := objOf(info, id); o != nil {
+						defs[o] = append(defs[o], as.Rhs[i])
+					}
+				}
+			}
+		}
+		return true
+	})
+	var fresh func(e ast.Expr, depth int) bool
+	fresh = func(e ast.Expr, depth int) bool {
+		switch x := stripParens(e).(type) {
+		case *ast.Ident:
+			if x.Name == "nil" {
+				return true
+			}
+			o := objOf(info, x)
+			if o == nil || depth > 3 || len(defs[o]) == 0 {
+				return false
+			}
+			for _, d := range defs[o] {
+				if !fresh(d, depth+1) {
+					return false
+				}
+			}
+			return true
+		case *ast.UnaryExpr:
+			_, isLit := x.X.(*ast.CompositeLit)
+			return x.Op == token.AND && isLit
+		case *ast.CallExpr:
+			var id *ast.Ident
+			switch f := x.Fun.(type) {
+			case *ast.Ident:
+				id = f
+			case *ast.SelectorExpr:
+				id = f.Sel
+			}
+			if id != nil {
+				if fo, ok := objOf(info, id).(*types.Func); ok {
+					if fu := c.d.funcs[funcFullName(fo)]; fu != nil {
+						return c.returnsFresh(fu, busy)
+					}
+				}
+			}
+		}
+		return false
+	}
+	ok := true
+	ast.Inspect(u.body, func(n ast.Node) bool {
+		if _, isLit := n.(*ast.FuncLit); isLit {
+			return false
+		}
+		if rs, isRet := n.(*ast.ReturnStmt); isRet {
+			for _, r := range rs.Results {
+				if !fresh(r, 0) {
+					ok = false
+				}
+			}
+		}
+		return true
+	})
+	return ok
 }
 
 // own: the expression denotes (part of) an object owned by the current entry, or a fresh value.
@@ -220,6 +402,9 @@ func (c *descrCtx) own(env *unitEnv, e ast.Expr) bool {
 				return true // the own slot of another map
 			}
 		}
+		if _, ok := c.twoLevelOwn(env, x); ok {
+			return true // the own slot of a two-level map
+		}
 		return false
 	case *ast.StarExpr:
 		return c.own(env, x.X)
@@ -258,14 +443,48 @@ func (c *descrCtx) own(env *unitEnv, e ast.Expr) bool {
 		case *types.TypeName:
 			return len(x.Args) == 1 && c.own(env, x.Args[0])
 		case *types.Func:
-			if c.d.funcs[funcFullName(o)] != nil {
-				return false // result of a module function: unknown
+			if fu := c.d.funcs[funcFullName(o)]; fu != nil {
+				return c.returnsFresh(fu, map[string]bool{}) // a freshly built object, or unknown
 			}
 			return true // standard library: fresh value (strings.Split, strconv.Itoa, fmt.Sprintf, …)
 		}
 		return false
 	}
 	return false
+}
+
+// ensureGuard: the assignment `X[a] = m` stores a map that was just made because X[a] was nil:
+// the statement sits in `if m == nil { m = make(…); X[a] = m }` with m defined from X[a].
+func (c *descrCtx) ensureGuard(env *unitEnv, lhs *ast.IndexExpr, rhs ast.Expr) bool {
+	info := env.u.pk.info
+	id, ok := stripParens(rhs).(*ast.Ident)
+	if !ok {
+		return false
+	}
+	o := objOf(info, id)
+	if o == nil || !c.inside(env, o) {
+		return false
+	}
+	fromSlot, made := false, false
+	for _, d := range env.defs[o] {
+		switch dx := stripParens(d).(type) {
+		case *ast.IndexExpr:
+			if c.text(dx) == c.text(lhs) {
+				fromSlot = true
+			} else {
+				return false
+			}
+		case *ast.CallExpr:
+			if f, ok := dx.Fun.(*ast.Ident); ok && f.Name == "make" {
+				made = true
+			} else {
+				return false
+			}
+		default:
+			return false
+		}
+	}
+	return fromSlot && made
 }
 
 func stripParens(e ast.Expr) ast.Expr {
@@ -305,6 +524,16 @@ func (c *descrCtx) write(env *unitEnv, lhs, rhs ast.Expr, isDelete bool) {
 		if tv, ok := info.Types[ie.X]; ok {
 			if _, isMap := tv.Type.Underlying().(*types.Map); isMap {
 				x := c.text(ie.X)
+				if X, ok := c.twoLevelOwn(env, ie); ok {
+					c.effs["ownKey:"+X+"[·][·]"] = true
+					return
+				}
+				if _, n, ok := c.compOf(env, ie.Index); ok && n == 2 && !isDelete && rhs != nil && c.ensureGuard(env, ie, rhs) {
+					// `m := X[a]; if m == nil { m = make(…); X[a] = m }`: the inner map of a two-level map is
+					// created if absent — idempotent, like a set insertion
+					c.effs["setInsert:"+x+"[·] exists"] = true
+					return
+				}
 				switch {
 				case c.keyDetermining(env, ie.Index) && env.u.key == "site":
 					c.effs["ownKey:"+x] = true
@@ -332,6 +561,30 @@ func (c *descrCtx) write(env *unitEnv, lhs, rhs ast.Expr, isDelete bool) {
 	case *ast.SliceExpr:
 		base = x.X
 	}
+	if se, ok := lhs.(*ast.SelectorExpr); ok {
+		if id, ok := se.X.(*ast.Ident); ok && !c.own(env, id) {
+			if ci, ok := env.inCase[c.curStmt]; ok && ci.cc.List != nil {
+				if tag, ok := ci.sw.Tag.(*ast.Ident); ok && c.keyDetermining(env, tag) {
+					lits := true
+					for _, e := range ci.cc.List {
+						if bl, ok := e.(*ast.BasicLit); !ok || bl.Kind != token.STRING {
+							lits = false
+						}
+					}
+					if lits {
+						t := id.Name + "." + se.Sel.Name
+						if c.keyed[t] == nil {
+							c.keyed[t] = map[*ast.CaseClause]bool{}
+						}
+						c.keyed[t][ci.cc] = true
+						c.keyedLHS[t]++
+						c.effs["ownKey:"+id.Name+".<field selected by the key>"] = true
+						return
+					}
+				}
+			}
+		}
+	}
 	if base != nil && c.own(env, base) {
 		// a write into a fresh local (words[3] = "x") is not visible outside: still harmless as ownField
 		c.effs["ownField:"+field] = true
@@ -344,7 +597,36 @@ func (c *descrCtx) write(env *unitEnv, lhs, rhs ast.Expr, isDelete bool) {
 func (c *descrCtx) scan(env *unitEnv, body ast.Node) {
 	info := env.u.pk.info
 	collectDefs(env, body)
+	if env.inCase == nil {
+		env.inCase = map[ast.Node]caseInfo{}
+	}
 	ast.Inspect(body, func(n ast.Node) bool {
+		if sw, ok := n.(*ast.SwitchStmt); ok {
+			if _, ok := sw.Tag.(*ast.Ident); ok {
+				for _, cl := range sw.Body.List {
+					cc := cl.(*ast.CaseClause)
+					for _, st := range cc.Body {
+						ast.Inspect(st, func(m ast.Node) bool {
+							if m != nil {
+								env.inCase[m] = caseInfo{sw, cc}
+							}
+							return true
+						})
+					}
+				}
+			}
+		}
+		return true
+	})
+	ast.Inspect(body, func(n ast.Node) bool {
+		if st, ok := n.(ast.Stmt); ok {
+			if _, isBlock := st.(*ast.BlockStmt); !isBlock {
+				switch st.(type) {
+				case *ast.AssignStmt, *ast.IncDecStmt, *ast.ExprStmt:
+					c.curStmt = st
+				}
+			}
+		}
 		switch n := n.(type) {
 		case *ast.FuncLit:
 			// closures bound to a variable are analysed where they are called
@@ -421,7 +703,7 @@ func (c *descrCtx) scan(env *unitEnv, body ast.Node) {
 func (c *descrCtx) descend(env *unitEnv, callee *unit, call *ast.CallExpr, params *ast.FieldList, recv *ast.FieldList) {
 	info := callee.pk.info
 	penv := &unitEnv{u: callee, node: callee.node, params: map[types.Object]bool{}, defs: map[types.Object][]ast.Expr{},
-		elems: map[types.Object]ast.Expr{}, busy: map[types.Object]bool{}}
+		elems: map[types.Object]ast.Expr{}, busy: map[types.Object]bool{}, keyParams: map[types.Object]bool{}, keyComp: map[types.Object]int{}}
 	sig := ""
 	i := 0
 	if params != nil {
@@ -433,6 +715,14 @@ func (c *descrCtx) descend(env *unitEnv, callee *unit, call *ast.CallExpr, param
 				}
 				if o := info.Defs[id]; o != nil {
 					penv.params[o] = ownArg
+					if i < len(call.Args) {
+						if aid, ok := call.Args[i].(*ast.Ident); ok && c.keyDetermining(env, aid) {
+							penv.keyParams[o] = true
+						}
+						if ci, _, ok := c.compOf(env, call.Args[i]); ok {
+							penv.keyComp[o] = ci
+						}
+					}
 				}
 				if ownArg {
 					sig += "1"
@@ -452,12 +742,40 @@ func (c *descrCtx) descend(env *unitEnv, callee *unit, call *ast.CallExpr, param
 			penv.params[o] = ownRecv
 		}
 	}
+	// does the callee (transitively) print? then the call must sit in a `default:` clause
+	if cs := c.d.closure(callee.body, callee, nil); len(kindsOf(cs.feats)) > 0 {
+		for f := range cs.feats {
+			if strings.HasPrefix(f, "out:") {
+				if ci, ok := env.inCase[call]; !ok || ci.cc.List != nil {
+					own := c.d.closure(callee.body, &unit{key: callee.key, node: callee.node, body: callee.body, lit: callee.lit, decl: callee.decl, pk: callee.pk}, nil)
+					_ = own
+					c.outNotDflt = c.outNotDflt || !c.calleeOnlyForwards(callee)
+				}
+			}
+		}
+	}
 	k := callee.key + "/" + sig
 	if c.visited[k] {
 		return
 	}
 	c.visited[k] = true
 	c.scan(penv, callee.body)
+}
+
+// calleeOnlyForwards: the callee prints only through calls that are themselves checked when it is
+// scanned (it contains no direct output sink of its own).
+func (c *descrCtx) calleeOnlyForwards(callee *unit) bool {
+	direct := false
+	info := callee.pk.info
+	ast.Inspect(callee.body, func(n ast.Node) bool {
+		if id, ok := n.(*ast.Ident); ok {
+			if f, ok := info.Uses[id].(*types.Func); ok && outSinks[funcFullName(f)] {
+				direct = true
+			}
+		}
+		return true
+	})
+	return !direct
 }
 
 // occurrences of an expression text in the closure, with the way it is used
@@ -492,7 +810,7 @@ func (c *descrCtx) checkReads(units []*unit) {
 	}
 	for _, u := range units {
 		env := &unitEnv{u: u, node: u.node, params: map[types.Object]bool{}, defs: map[types.Object][]ast.Expr{},
-			elems: map[types.Object]ast.Expr{}, busy: map[types.Object]bool{}}
+			elems: map[types.Object]ast.Expr{}, busy: map[types.Object]bool{}, keyParams: map[types.Object]bool{}, keyComp: map[types.Object]int{}}
 		okUse := map[ast.Expr]bool{}
 		ast.Inspect(u.body, func(n ast.Node) bool {
 			switch n := n.(type) {
@@ -544,7 +862,8 @@ func (c *descrCtx) checkReads(units []*unit) {
 
 // describe returns the Lean term of the body of a site and a comment.
 func (d *deepCtx) describe(s *site, sum *summary) (string, string) {
-	c := &descrCtx{d: d, s: s, effs: map[string]bool{}, bad: map[string]bool{}, visited: map[string]bool{}}
+	c := &descrCtx{d: d, s: s, effs: map[string]bool{}, bad: map[string]bool{}, visited: map[string]bool{},
+		keyed: map[string]map[*ast.CaseClause]bool{}, keyedLHS: map[string]int{}}
 	info := s.pk.info
 	if id, ok := s.rs.Key.(*ast.Ident); ok && id.Name != "_" {
 		c.keyObj = objOf(info, id)
@@ -552,12 +871,15 @@ func (d *deepCtx) describe(s *site, sum *summary) (string, string) {
 	if id, ok := s.rs.Value.(*ast.Ident); ok && id.Name != "_" {
 		c.valObj = objOf(info, id)
 	}
-	if ks := kindsOf(sum.feats); len(ks) > 0 {
+	ks := kindsOf(sum.feats)
+	outOnly := len(ks) == 1 && ks[0] == "out"
+	abortOnly := len(ks) == 1 && ks[0] == "abort"
+	if len(ks) > 0 && !outOnly && !abortOnly {
 		c.fail("the closure can: %s", strings.Join(ks, ", "))
 	}
 	u := &unit{key: "site", node: s.rs, body: s.rs.Body, decl: s.decl, pk: s.pk}
 	env := &unitEnv{u: u, node: s.rs, params: map[types.Object]bool{}, defs: map[types.Object][]ast.Expr{},
-		elems: map[types.Object]ast.Expr{}, busy: map[types.Object]bool{}}
+		elems: map[types.Object]ast.Expr{}, busy: map[types.Object]bool{}, keyParams: map[types.Object]bool{}, keyComp: map[types.Object]int{}}
 	c.scan(env, s.rs.Body)
 	// units of the closure, for the read check
 	units := []*unit{u}
@@ -575,6 +897,20 @@ func (d *deepCtx) describe(s *site, sum *summary) (string, string) {
 		}
 	}
 	c.checkReads(units)
+	for t, ccs := range c.keyed {
+		if len(ccs) > 1 {
+			c.fail("field %s is written under several cases of the switch over the key", t)
+		}
+		n := 0
+		for _, r := range c.selReads {
+			if r.text == t {
+				n++
+			}
+		}
+		if n != c.keyedLHS[t] {
+			c.fail("field %s (written per key) is also read in the closure", t)
+		}
+	}
 
 	exits := false
 	onlyContinueOuter := true
@@ -608,6 +944,31 @@ func (d *deepCtx) describe(s *site, sum *summary) (string, string) {
 				return ".firstPayload " + q(id.Name), "takes " + c.text(as.Rhs[0]) + " of whichever entry comes first: needs equal payloads"
 			}
 		}
+	}
+	onlyReturn := exits
+	for _, f := range s.feats {
+		if strings.HasPrefix(f, "exit:") && f != "exit:return" {
+			onlyReturn = false
+		}
+	}
+	if (onlyReturn || abortOnly && !exits) && len(c.bad) == 0 && len(effs) > 0 && !(outOnly && c.outNotDflt) {
+		okEffs := true
+		var terms []string
+		for _, e := range effs {
+			k, v, _ := strings.Cut(e, ":")
+			switch k {
+			case "ownKey", "ownField", "setInsert":
+				terms = append(terms, "."+k+" "+q(v))
+			default:
+				okEffs = false
+			}
+		}
+		if okEffs {
+			return ".guarded [" + strings.Join(terms, ", ") + "]", "per entry: returns an error (or warns in a default: clause) or " + strings.Join(effs, " ") + ": needs NoComplaint"
+		}
+	}
+	if outOnly || abortOnly {
+		c.fail("the closure can: %s", strings.Join(ks, ", "))
 	}
 	switch {
 	case exits && onlyContinueOuter && len(effs) == 0 && len(c.bad) == 0:
